@@ -281,7 +281,8 @@ Tags(t, v) == {r.tag : r \in Viol(t, v).rs}
 \* the path a rejection must carry: the value's path; for type empty the leaf's path is accepted as well
 PathModes(t) == IF t.k = "empty" THEN {"value", "leaf"} ELSE {"value"}
 
-\* lexeme class (for attributing disagreements)
+\* lexeme class (for attributing disagreements); for a union the class under the first member that accepts the lexeme
+RECURSIVE LexClass(_, _)
 LexClass(t, v) ==
   CASE t.k \in NumKinds ->
          LET p == IF t.k = "decimal64" THEN ParseDec(v, t.fd) ELSE ParseInt(v) IN
@@ -293,6 +294,9 @@ LexClass(t, v) ==
          ELSE IF t.k = "decimal64" /\ 46 \notin RangeOf(v) THEN "no-fraction"
          ELSE "canonical"
     [] t.k = "string" -> IF \E i \in 1..Len(v) : v[i] > 127 THEN "multibyte" ELSE "ascii"
+    [] t.k = "identityref" -> IF v \notin t.acc THEN "plain" ELSE IF 58 \in RangeOf(v) THEN "identity-qualified" ELSE "identity-bare"
+    [] t.k = "union" -> LET ms == {i \in 1..Len(t.members) : Accepts(t.members[i], v)} IN
+                        IF ms = {} THEN "plain" ELSE LexClass(t.members[SetMin(ms)], v)
     [] OTHER -> "plain"
 
 RECURSIVE CompileChain(_), CompileFrom(_, _, _, _), CompileMembers(_, _, _)
